@@ -31,8 +31,13 @@ Inductive tag :=
 | TGoBlock (p : bool)                   (* Go function waiting in channel receive/select/send; p: selects on Done *)
 | TGoPcall                              (* the builtin pcall, waiting for its callee *)
 | TGoXpcall (h : hkind) (running : bool)(* the builtin xpcall; running: its handler is being run *)
-| TCo (wrapped : bool) (p : bool).      (* coroutine.resume / a wrap function in the parent; frames above
+| TCo (wrapped : bool) (p : bool)       (* coroutine.resume / a wrap function in the parent; frames above
                                            belong to the coroutine; p: that thread has a (child) context *)
+| TEntry (p : bool).                    (* a dispatch loop that ends with a Go function instead of an
+                                           instruction: the Go function above was entered from Go code
+                                           (host call, library callback, Go handler of xpcall) or tail-called
+                                           as the last action of the loop; when it returns normally the loop
+                                           polls once more (pollContextAfterGFunction); p: the thread polls *)
 
 Inductive err := ECtx | EOther.         (* the context's Err() text / any other error value *)
 Inductive mode := Run | Raising (e : err).
@@ -53,7 +58,7 @@ Inductive role := Passes | Catches | Handles (h : hkind).
 
 Definition role_of (t : tag) : role :=
   match t with
-  | TLua _ | TGoPlain | TGoBlock _ | TCo true _ => Passes
+  | TLua _ | TGoPlain | TGoBlock _ | TCo true _ | TEntry _ => Passes
   | TGoPcall | TCo false _ | TGoXpcall _ true => Catches
   | TGoXpcall h false => Handles h
   end.
@@ -70,12 +75,16 @@ Fixpoint cur_flag (att : bool) (s : list tag) : bool :=
    coroutine boundaries are pushed by resume only; a fresh xpcall is not running its handler. *)
 Definition frame_ok (f : bool) (t : tag) : bool :=
   match t with
-  | TLua p | TGoBlock p => Bool.eqb p f
+  | TLua p | TGoBlock p | TEntry p => Bool.eqb p f
   | TGoPlain | TGoPcall | TGoXpcall _ false => true
   | TGoXpcall _ true | TCo _ _ => false
   end.
 
 Definition frames_ok (f : bool) (fs : list tag) : bool := forallb (frame_ok f) fs.
+
+(* What Go code can call: a Lua function (its loop polls) or a Go function through an entry. *)
+Definition entry_ok (fs : list tag) : bool :=
+  match last fs TGoPlain with TLua _ | TEntry _ => true | _ => false end.
 
 Definition is_co (t : tag) : bool := match t with TCo _ _ => true | _ => false end.
 
@@ -141,12 +150,15 @@ Definition apply_effect (σ : state) (e : effect) : option state :=
   end.
 
 (* The frame that runs xpcall's handler. *)
+(* A Go handler (debug.traceback ...) is entered through ls.Call: what remains of it for the machine
+   is the poll after it returned (it is assumed not to call back into Lua). *)
 Definition handler_frame (h : hkind) (f : bool) : tag :=
-  match h with HLua => TLua f | HGo => TGoPlain end.
+  match h with HLua => TLua f | HGo => TEntry f end.
 
 Inductive label :=
 | LInstr (polled : bool) (e : effect)   (* a Lua instruction was dispatched and completed (polled: after a poll) *)
 | LPollRaise                            (* a dispatch attempt saw Done() closed and raised the context's error *)
+| LExitPoll (raised : bool)             (* the poll after a Go function that ended a dispatch loop *)
 | LRet                                  (* control came back to pcall/xpcall/resume/wrap: it returns *)
 | LGoCall (fs : list tag)               (* a Go library function calls again *)
 | LGoRet                                (* ... returns *)
@@ -169,13 +181,20 @@ Inductive step : state -> label -> state -> Prop :=
 | S_poll : forall σ s,
     stk σ = TLua true :: s -> md σ = Run -> cancelled σ = true ->
     step σ LPollRaise (with_stk σ (stk σ) (Raising ECtx))
+| S_exit_poll : forall σ s,
+    stk σ = TEntry true :: s -> md σ = Run -> cancelled σ = true ->
+    step σ (LExitPoll true) (with_stk σ (stk σ) (Raising ECtx))
+| S_exit_ret : forall σ p s,
+    stk σ = TEntry p :: s -> md σ = Run -> p && cancelled σ = false ->
+    step σ (LExitPoll false) (with_stk σ s Run)
 | S_ret : forall σ t s,
     stk σ = t :: s -> md σ = Run ->
     (t = TGoPcall \/ (exists h r, t = TGoXpcall h r) \/ (exists w p, t = TCo w p)) ->
     step σ LRet (with_stk σ s Run)
 | S_gocall : forall σ s fs,
     stk σ = TGoPlain :: s -> md σ = Run ->
-    fs <> [] -> frames_ok (cur_flag (attached σ) (stk σ)) fs = true -> length fs <= gofuel σ ->
+    fs <> [] -> frames_ok (cur_flag (attached σ) (stk σ)) fs = true -> entry_ok fs = true ->
+    length fs <= gofuel σ ->
     step σ (LGoCall fs)
          (mk (fs ++ stk σ) Run (cancelled σ) (attached σ) (gofuel σ - length fs) (pool σ))
 | S_goret : forall σ s,
@@ -212,7 +231,7 @@ Inductive run : state -> list label -> state -> Prop :=
 
 (* A dispatch attempt = one iteration of the polling loop = one call of Done(). *)
 Definition is_attempt (l : label) : bool :=
-  match l with LInstr true _ | LPollRaise => true | _ => false end.
+  match l with LInstr true _ | LPollRaise | LExitPoll _ => true | _ => false end.
 Definition is_instr (l : label) : bool :=
   match l with LInstr _ _ => true | _ => false end.
 
@@ -225,7 +244,7 @@ Definition final (σ : state) : Prop := stk σ = [].
 
 (* Measures. *)
 Definition tag_polls (t : tag) : bool :=
-  match t with TLua p | TGoBlock p | TCo _ p => p | _ => true end.
+  match t with TLua p | TGoBlock p | TCo _ p | TEntry p => p | _ => true end.
 Definition polls_all (s : list tag) : bool := forallb tag_polls s.
 
 Definition is_protected (t : tag) : bool :=
@@ -271,7 +290,7 @@ Definition exec_step (σ : state) (go : list gochoice) : (label * state * list g
       match go with
       | GCall fs :: go' =>
           if negb (Nat.eqb (length fs) 0) && frames_ok (cur_flag (attached σ) (stk σ)) fs
-             && Nat.leb (length fs) (gofuel σ)
+             && entry_ok fs && Nat.leb (length fs) (gofuel σ)
           then inl ((LGoCall fs,
                  mk (fs ++ stk σ) Run (cancelled σ) (attached σ) (gofuel σ - length fs) (pool σ), go'))
           else inr EndBadChoice
@@ -279,6 +298,9 @@ Definition exec_step (σ : state) (go : list gochoice) : (label * state * list g
       | GRet :: go' => inl (LGoRet, with_stk σ s Run, go')
       | [] => inl (LGoRet, with_stk σ s Run, [])
       end
+  | TEntry p :: s, Run =>
+      if p && cancelled σ then inl (LExitPoll true, with_stk σ (stk σ) (Raising ECtx), go)
+      else inl (LExitPoll false, with_stk σ s Run, go)
   | TGoBlock p :: s, Run =>
       if p && cancelled σ then inl (LUnblock, with_stk σ (stk σ) (Raising ECtx), go)
       else inl (LRecv, with_stk σ s Run, go)
@@ -342,7 +364,7 @@ Definition no_block (s : list tag) : bool := forallb (fun t => negb (is_block t)
 Fixpoint cost_run (s : list tag) : nat :=
   match s with
   | [] => 0
-  | TLua _ :: s' => 1 + cost_raise s'
+  | TLua _ :: s' | TEntry _ :: s' => 1 + cost_raise s'
   | _ :: s' => cost_run s'
   end
 with cost_raise (s : list tag) : nat :=
@@ -353,7 +375,7 @@ with cost_raise (s : list tag) : nat :=
       | Passes => cost_raise s'
       | Catches => cost_run s'
       | Handles HLua => 1 + cost_run s'
-      | Handles HGo => cost_run s'
+      | Handles HGo => 1 + cost_run s'
       end
   end.
 
@@ -362,7 +384,7 @@ with cost_raise (s : list tag) : nat :=
 Fixpoint armed_run (s : list tag) : bool :=
   match s with
   | [] => false
-  | TLua _ :: s' => armed_raise s'
+  | TLua _ :: s' | TEntry _ :: s' => armed_raise s'
   | TGoPlain :: _ => false
   | TGoBlock _ :: s' => armed_run s' && armed_raise s'   (* it may raise the context's error or complete *)
   | _ :: s' => armed_run s'
@@ -374,8 +396,7 @@ with armed_raise (s : list tag) : bool :=
       match role_of t with
       | Passes => armed_raise s'
       | Catches => armed_run s'
-      | Handles HLua => armed_run s'
-      | Handles HGo => false
+      | Handles _ => armed_run s'
       end
   end.
 
@@ -397,6 +418,7 @@ Definition erase_tag (t : tag) : tag :=
   | TLua _ => TLua false
   | TGoBlock _ => TGoBlock false
   | TCo w _ => TCo w false
+  | TEntry _ => TEntry false
   | t => t
   end.
 Definition erase_thread (th : thread) : thread := (false, map erase_tag (snd th)).
